@@ -165,10 +165,14 @@ def run_c10(t, tier, res):
     any_strings = any(sum(w.values()) for w in want.values())
     knob = t.draw(7)
     # fault-free configuration
-    for lvl, w in sorted(want.items()):
+    for lvl, w in sorted(list(want.items())):
         try:
             mc = MarkovCracker(g, lvl, Optimizer(max_length=knob))
-            got, done = drain(mc, sum(w.values()) * 2 + 5)
+            got, done = drain(mc, sum(w.values()) * 2 + 5, work=300000)
+        except WorkLimit:
+            res.stats["levels_skipped_work_limit"] += 1
+            want.pop(lvl)
+            continue
         except Exception as e:
             import traceback
             res.violate("C10", "raised", {"level": lvl, "configuration": "fresh cache", "model_kind": kind,
@@ -186,7 +190,11 @@ def run_c10(t, tier, res):
             return
         res.stats["levels_fresh"] += 1
         res.stats["strings"] += len(got)
+    if not want:
+        res.rejected = "levels_too_expensive"
+        return
     # history configuration: one shared optimizer
+    _WORK[0] = 1500000
     opt = Optimizer(max_length=knob)
     gens = []       # [level, cracker, collected, finished]
     nops = t.between(4, 10)
@@ -248,6 +256,7 @@ def run_c10(t, tier, res):
             return
         if gen[4] and sum(gc.values()) >= 2:
             warm_hits += 1
+    _WORK[0] = None
     res.faults["generator_started_on_warm_cache"] += sum(1 for gen in gens if gen[4])
     res.stats["cache_knob_%d" % knob] += 1
     res.stats["history_ops"] += len(history)
@@ -454,5 +463,11 @@ def run_c11(t, tier, res):
 def run_one(tape, tier, prop):
     res = RunResult()
     with guesser.streams():
-        {"C10": run_c10, "C11": run_c11, "C18": run_c18}[prop](tape, tier, res)
+        try:
+            {"C10": run_c10, "C11": run_c11, "C18": run_c18}[prop](tape, tier, res)
+        except WorkLimit:
+            res.rejected = "work_limit_in_history_phase"
+            res.violations = []
+        finally:
+            _WORK[0] = None
     return res
